@@ -526,3 +526,67 @@ async fn behaviours() {
         out.put(&json!({"i": c["id"], "settles": settles}));
     }
 }
+
+// ------------------------------------------------------------------------------------------------ block cache
+
+/// A stand-in for a block: all the cache looks at is the height.
+struct TestBlock(u64);
+
+impl crate::block_cache::GetSequencerHeight for TestBlock {
+    fn get_height(&self) -> sequencer_client::tendermint::block::Height {
+        (self.0 as u32).into()
+    }
+}
+
+/// `block_cache_transitions`: every transition of spec/BlockCache.tla on the real `BlockCache`: the abstract pre-state
+/// is built with the cache's own `insert`, the operation applied, and the outcome, the next height and the heights held
+/// (probed with `insert`: Occupied / Old / vacant) compared with the specification.
+#[test]
+fn block_cache_transitions() {
+    use crate::block_cache::{
+        BlockCache,
+        Error,
+    };
+    let cases = io::read_cases();
+    let mut out = io::Writer::open();
+    for c in &cases {
+        let s = &c["s"];
+        let a = &c["a"];
+        let mut cache: BlockCache<TestBlock> =
+            BlockCache::with_next_height((s["next"].as_u64().unwrap() as u32).into()).unwrap();
+        for h in s["cache"].as_array().unwrap() {
+            cache.insert(TestBlock(h.as_u64().unwrap())).unwrap();
+        }
+        let h = a["h"].as_u64().unwrap_or(0);
+        let outcome = match a["op"].as_str().unwrap() {
+            "insert" => match cache.insert(TestBlock(h)) {
+                Ok(()) => json!("ok"),
+                Err(Error::Old {
+                    ..
+                }) => json!("old"),
+                Err(Error::Occupied {
+                    ..
+                }) => json!("occupied"),
+                Err(e) => json!(format!("error: {e}")),
+            },
+            "pop" => json!(cache.pop().map_or(0, |b| b.0)),
+            "drop_obsolete" => {
+                cache.drop_obsolete((h as u32).into());
+                json!("ok")
+            }
+            other => panic!("unknown op {other}"),
+        };
+        let next = cache.next_height_to_pop();
+        // which heights are held: a held height is Occupied, one below `next` is Old, anything else goes in
+        let mut held = vec![];
+        for p in 1..=c["max_h"].as_u64().unwrap() + 2 {
+            if let Err(Error::Occupied {
+                ..
+            }) = cache.insert(TestBlock(p))
+            {
+                held.push(p);
+            }
+        }
+        out.put(&json!({"i": c["id"], "out": outcome, "next": next, "cache": held}));
+    }
+}
